@@ -17,21 +17,31 @@ use crate::c42a;
 use crate::c42b;
 use crate::c42ref::*;
 
-/// true when known_findings.json has an open entry with this signature
+/// true when known_findings.json has an open entry with this signature. The file is shared and
+/// rewritten by other people while runs are in progress: it is read ONCE per process (with a few
+/// retries should a read hit a half-written file).
 pub fn is_open(property: &str, sig: &str) -> bool {
-    let path = vf_kit::engine::verif_root().join("known_findings.json");
-    let Ok(text) = std::fs::read_to_string(path) else { return false };
-    let Ok(v) = serde_json::from_str::<serde_json::Value>(&text) else { return false };
-    v.get("findings")
-        .and_then(|f| f.as_array())
-        .map(|a| {
-            a.iter().any(|e| {
-                e.get("property").and_then(|x| x.as_str()) == Some(property)
-                    && e.get("status").and_then(|x| x.as_str()) == Some("open")
-                    && e.get("signature").and_then(|x| x.as_str()) == Some(sig)
-            })
-        })
-        .unwrap_or(false)
+    static OPEN: std::sync::OnceLock<std::collections::HashSet<(String, String)>> = std::sync::OnceLock::new();
+    let set = OPEN.get_or_init(|| {
+        let path = vf_kit::engine::verif_root().join("known_findings.json");
+        for _ in 0..20 {
+            if let Some(v) = std::fs::read_to_string(&path).ok().and_then(|t| serde_json::from_str::<serde_json::Value>(&t).ok()) {
+                return v
+                    .get("findings")
+                    .and_then(|f| f.as_array())
+                    .map(|a| {
+                        a.iter()
+                            .filter(|e| e.get("status").and_then(|x| x.as_str()) == Some("open"))
+                            .filter_map(|e| Some((e.get("property")?.as_str()?.to_string(), e.get("signature")?.as_str()?.to_string())))
+                            .collect()
+                    })
+                    .unwrap_or_default();
+            }
+            std::thread::sleep(std::time::Duration::from_millis(100));
+        }
+        Default::default()
+    });
+    set.contains(&(property.to_string(), sig.to_string()))
 }
 
 pub const TRAILING: &str = "trailing-empty-container";
